@@ -20,6 +20,7 @@
 #include "wire.hh"
 #include <libTMCG.hh>
 #include <atomic>
+#include <ucontext.h>
 #include <memory>
 #include <algorithm>
 
@@ -292,7 +293,7 @@ inline bool blocked_locked(const WaitState &w, const wire::Pipe &p)
 }
 
 // prover = side A (direction 0 = prover -> verifier), verifier = side B (direction 1)
-inline RunOut run_inter(const Role &prover, const Role &verifier, uint64_t seed, const Mut *mut)
+inline RunOut run_inter_threads(const Role &prover, const Role &verifier, uint64_t seed, const Mut *mut)
 {
 	RunOut r;
 	wire::Duplex d;
@@ -359,6 +360,208 @@ inline RunOut run_inter(const Role &prover, const Role &verifier, uint64_t seed,
 	r.deadlock = dead.load() != 0;
 	r.pv = d.ab.sent, r.vp = d.ba.sent;
 	return r;
+}
+
+// ------------------------------------------------------------------------------------------------ coroutine transport
+// The same two-party run on ONE thread: prover and verifier are coroutines (ucontext); a read on an empty pipe switches
+// to the peer.  A two-party blocking message-passing program is confluent, so this is the same execution as the
+// two-thread one of wire.hh, but it does not depend on the kernel scheduler (the box is shared and loaded), is ~10x
+// faster, and detects a mutual wait exactly and immediately.  Default transport; C3_TRANSPORT=threads selects wire.hh.
+struct CoRun;
+class CoBuf : public std::streambuf {
+	CoRun *R;
+	int side;
+	char ibuf[1];
+public:
+	CoBuf(CoRun *r, int s) : R(r), side(s) { setg(ibuf, ibuf, ibuf); }
+protected:
+	int_type underflow() override;
+	int_type overflow(int_type c) override;
+	std::streamsize xsputn(const char *s, std::streamsize n) override;
+	int sync() override { return 0; }
+};
+
+struct CoPipe {
+	std::deque<char> buf;
+	std::string partial;
+	bool closed;
+	size_t nlines;
+	std::vector<std::string> sent;
+	CoPipe() : closed(false), nlines(0) {}
+};
+
+struct CoRun {
+	ucontext_t mainctx, ctx[2];
+	char *stack[2];
+	bool started[2], finished[2], waiting[2], deadlock;
+	CoPipe pipe[2];                 // pipe[0]: A -> B, pipe[1]: B -> A
+	const Role *role[2];
+	bool ok[2], threw[2];
+	std::string what[2];
+	mcenv::CoinSource *cs[2];
+	const Mut *mut;
+	bool holding, cut;
+	std::string held;
+	CoBuf bufA, bufB;
+	std::iostream sA, sB;
+	static const size_t STACK = 1 << 20;
+	CoRun() : deadlock(false), mut(NULL), holding(false), cut(false), bufA(this, 0), bufB(this, 1), sA(&bufA), sB(&bufB)
+	{
+		for (int i = 0; i < 2; i++) started[i] = finished[i] = waiting[i] = ok[i] = threw[i] = false, stack[i] = NULL;
+	}
+	void push(int dir, const std::string &l) { CoPipe &p = pipe[dir]; for (size_t i = 0; i < l.size(); i++) p.buf.push_back(l[i]); p.buf.push_back('\n'); }
+	void line(int dir, const std::string &l)
+	{
+		CoPipe &p = pipe[dir];
+		p.sent.push_back(l);
+		size_t idx = p.nlines++;
+		if (!mut || mut->op == M_NONE || mut->dir != dir) { push(dir, l); return; }
+		switch (mut->op)
+		{
+			case M_REPLACE: push(dir, idx == mut->idx ? mut->text : l); break;
+			case M_SWAP_NEXT:
+				if (idx == mut->idx) { holding = true; held = l; }
+				else if (idx == mut->idx + 1) { push(dir, l); push(dir, held); holding = false; }
+				else push(dir, l);
+				break;
+			case M_TRUNC_AFTER:
+				if (idx <= mut->idx) push(dir, l);
+				else p.closed = true;
+				break;
+			default: push(dir, l);
+		}
+	}
+	void write(int side, const char *s, size_t n)
+	{
+		CoPipe &p = pipe[side];   // side 0 writes pipe[0]
+		for (size_t i = 0; i < n; i++)
+		{
+			if (s[i] != '\n') { p.partial += s[i]; continue; }
+			std::string l = p.partial;
+			p.partial.clear();
+			line(side, l);
+		}
+	}
+	void switch_to(int from, int to)   // from/to: 0,1 or -1 = main
+	{
+		ucontext_t *f = from < 0 ? &mainctx : &ctx[from], *t = to < 0 ? &mainctx : &ctx[to];
+		if (to >= 0) mcenv::cur = cs[to];
+		swapcontext(f, t);
+		if (from >= 0) mcenv::cur = cs[from];
+	}
+	// blocking read of one char for `side`; returns false on EOF
+	bool read1(int side, char &c)
+	{
+		CoPipe &in = pipe[1 - side];
+		int peer = 1 - side;
+		while (in.buf.empty() && !in.closed)
+		{
+			waiting[side] = true;
+			if (finished[peer]) { in.closed = true; break; }
+			if (waiting[peer] && pipe[side].buf.empty() && !pipe[side].closed && started[peer])
+			{
+				// the peer is blocked reading from us and nothing is in flight: mutual wait
+				deadlock = true;
+				pipe[0].closed = pipe[1].closed = true;
+				break;
+			}
+			switch_to(side, peer);
+		}
+		waiting[side] = false;
+		if (in.buf.empty()) return false;
+		c = in.buf.front();
+		in.buf.pop_front();
+		return true;
+	}
+	void body(int side)
+	{
+		try { ok[side] = (*role[side])(side == 0 ? sA : sB); }
+		catch (std::exception &e) { threw[side] = true; what[side] = e.what(); }
+		catch (...) { threw[side] = true; what[side] = "non-std exception"; }
+		finished[side] = true;
+		CoPipe &out = pipe[side];
+		if (!out.partial.empty()) { for (size_t i = 0; i < out.partial.size(); i++) out.buf.push_back(out.partial[i]); out.partial.clear(); }
+		out.closed = true;
+		int peer = 1 - side;
+		if (!finished[peer]) switch_to(side, peer);   // never resumed again
+		switch_to(side, -1);
+	}
+};
+
+inline CoBuf::int_type CoBuf::underflow()
+{
+	if (gptr() < egptr()) return traits_type::to_int_type(*gptr());
+	char c;
+	if (!R->read1(side, c)) return traits_type::eof();
+	ibuf[0] = c;
+	setg(ibuf, ibuf, ibuf + 1);
+	return traits_type::to_int_type(c);
+}
+inline CoBuf::int_type CoBuf::overflow(int_type c)
+{
+	if (!traits_type::eq_int_type(c, traits_type::eof())) { char ch = traits_type::to_char_type(c); R->write(side, &ch, 1); }
+	return c;
+}
+inline std::streamsize CoBuf::xsputn(const char *s, std::streamsize n) { R->write(side, s, (size_t)n); return n; }
+
+static thread_local CoRun *co_current = NULL;
+static void co_entry(int side) { co_current->body(side); }
+
+inline char *co_stack(int i)
+{
+	static thread_local char *st[2] = {NULL, NULL};
+	if (!st[i]) st[i] = (char *)malloc(CoRun::STACK);
+	return st[i];
+}
+
+inline RunOut run_inter_co(const Role &prover, const Role &verifier, uint64_t seed, const Mut *mut)
+{
+	RunOut r;
+	CoRun R;
+	mcenv::CoinSource csA(seed, 101), csB(seed, 202);
+	R.cs[0] = &csA, R.cs[1] = &csB;
+	R.role[0] = &prover, R.role[1] = &verifier;
+	R.mut = mut;
+	mcenv::CoinSource *old = mcenv::cur;
+	co_current = &R;
+	for (int i = 0; i < 2; i++)
+	{
+		getcontext(&R.ctx[i]);
+		R.ctx[i].uc_stack.ss_sp = co_stack(i);
+		R.ctx[i].uc_stack.ss_size = CoRun::STACK;
+		R.ctx[i].uc_link = &R.mainctx;
+		makecontext(&R.ctx[i], (void (*)())co_entry, 1, i);
+	}
+	R.started[0] = R.started[1] = true;
+	R.switch_to(-1, 0);
+	// back in main: a side finished while the other one had finished already, or (defensive) both are stuck
+	for (int guard = 0; guard < 4 && !(R.finished[0] && R.finished[1]); guard++)
+	{
+		R.pipe[0].closed = R.pipe[1].closed = true;
+		R.deadlock = true;
+		int s = R.finished[0] ? 1 : 0;
+		R.switch_to(-1, s);
+	}
+	mcenv::cur = old;
+	co_current = NULL;
+	r.accept = R.ok[1] && !R.threw[1];
+	r.v_std = R.threw[1] && R.what[1] != "non-std exception";
+	r.v_other = R.threw[1] && R.what[1] == "non-std exception";
+	r.v_what = R.what[1];
+	r.p_ok = R.ok[0];
+	r.p_std = R.threw[0] && R.what[0] != "non-std exception";
+	r.p_other = R.threw[0] && R.what[0] == "non-std exception";
+	r.p_what = R.what[0];
+	r.deadlock = R.deadlock;
+	r.pv = R.pipe[0].sent, r.vp = R.pipe[1].sent;
+	return r;
+}
+
+inline RunOut run_inter(const Role &prover, const Role &verifier, uint64_t seed, const Mut *mut)
+{
+	static int threads = -1;
+	if (threads < 0) { const char *e = getenv("C3_TRANSPORT"); threads = (e && !strcmp(e, "threads")) ? 1 : 0; }
+	return threads ? run_inter_threads(prover, verifier, seed, mut) : run_inter_co(prover, verifier, seed, mut);
 }
 
 inline std::vector<std::string> split_lines(const std::string &s)
